@@ -8,6 +8,7 @@ from __future__ import annotations
 import io
 import logging
 import threading
+import warnings
 from datetime import timedelta
 
 US = timedelta(microseconds=1)
@@ -70,12 +71,21 @@ def enums():
     return list(Instrument), list(Difficulty)
 
 
+_want_cache = {}
+
+
 def want_arg(want):
-    """want: None | list of (instrument index, difficulty index)"""
+    """want: None | list of (instrument index, difficulty index).
+
+    An application that parses a batch of charts with one selection hands the *same list object* to every parse; so does this
+    harness: equal selections are one object for the life of the process (the library must treat it as an input, not as scratch)."""
     if want is None:
         return None
     ins, dif = enums()
-    return [(ins[i], dif[d]) for i, d in want if i < len(ins) and d < len(dif)]
+    key = tuple((int(i), int(d)) for i, d in want)
+    if key not in _want_cache:
+        _want_cache[key] = [(ins[i], dif[d]) for i, d in key if i < len(ins) and d < len(dif)]
+    return _want_cache[key]
 
 
 def field_order():
@@ -175,14 +185,23 @@ def parse(text: str, want=None):
     _parse_count += 1
     lg = logging.getLogger("chartparse")
     old = lg.level
-    if _parse_count % 2 == 0 and threading.current_thread() is threading.main_thread():
+    main = threading.current_thread() is threading.main_thread()
+    if _parse_count % 2 == 0 and main:
         lg.setLevel(logging.DEBUG)
+    # ... nor on whether the application turns Python warnings into errors (-W error): every third parse does
+    strict = _parse_count % 3 == 0 and main
+    cm = warnings.catch_warnings()
+    if strict:
+        cm.__enter__()
+        warnings.simplefilter("error")
     try:
         c = Chart.from_file(io.StringIO(text, newline=""), want_tracks=want_arg(want))
         return c, None, _tls.sink
     except Exception as e:  # noqa: BLE001
         return None, e, _tls.sink
     finally:
+        if strict:
+            cm.__exit__(None, None, None)
         if lg.level != old:
             lg.setLevel(old)
         sink = _tls.sink
